@@ -1,6 +1,7 @@
 package props
 
 import (
+	"crypto"
 	"crypto/x509"
 	"encoding/pem"
 	"fmt"
@@ -47,7 +48,7 @@ type c07PKI struct {
 	root, root2, inter, inter2, foreignRoot, foreignInter, expiredInter, notCA *gen.CA
 }
 
-func newC07PKI() (*c07PKI, error) {
+func newC07PKI(rootSigner crypto.Signer) (*c07PKI, error) {
 	p := &c07PKI{}
 	var err error
 	mk := func(dst **gen.CA, spec gen.CertSpec, parent *gen.CA) {
@@ -55,7 +56,11 @@ func newC07PKI() (*c07PKI, error) {
 			*dst, err = gen.NewCA(spec, parent)
 		}
 	}
-	mk(&p.root, gen.CertSpec{CN: "root"}, nil)
+	if rootSigner != nil {
+		p.root, err = gen.NewCAWithSigner(gen.CertSpec{CN: "root"}, nil, rootSigner)
+	} else {
+		mk(&p.root, gen.CertSpec{CN: "root"}, nil)
+	}
 	mk(&p.root2, gen.CertSpec{CN: "root2"}, nil)
 	mk(&p.inter, gen.CertSpec{CN: "inter"}, p.root)
 	mk(&p.inter2, gen.CertSpec{CN: "inter2"}, p.inter)
@@ -217,7 +222,17 @@ type c07Case struct {
 }
 
 func runC07(c *core.Ctx) {
-	pki, err := newC07PKI()
+	// the layout's root CA key: ECDSA P-256 by default; thorough: RSA-2048 and Ed25519 on some workers
+	var rootSigner crypto.Signer
+	if !c.Quick() {
+		switch c.Shard % 4 {
+		case 1:
+			rootSigner = gen.ByKind(Pool(c), "rsa2048")[1].Signer
+		case 2:
+			rootSigner = gen.ByKind(Pool(c), "ed25519")[4].Signer
+		}
+	}
+	pki, err := newC07PKI(rootSigner)
 	if err != nil {
 		c.Inconclusive("harness: PKI: " + err.Error())
 		return
